@@ -252,5 +252,35 @@ theorem fwd_axes_eq_ref (mode : Mode) (c : K) :
   | [], _ :: _, _, _, _, _, h, _, _, _ => by simp [AdmissibleND] at h
   | _ :: _, [], _, _, _, _, h, _, _, _ => by simp [AdmissibleND] at h
   | _ :: _, _ :: _, [], _, _, _, h, _, _, _ => by simp [AdmissibleND] at h
+omit [CommRing K] [DecidableEq K] in
+theorem set_getD_self (idx : List Nat) (ax : Nat) : idx.set ax (idx.getD ax 0) = idx := by
+  induction idx generalizing ax with
+  | nil => simp
+  | cons a t ih =>
+    cases ax with
+    | zero => simp
+    | succ k => have := ih k; simp [List.getD_eq_getElem?_getD] at this ⊢; exact this
+
+omit [DecidableEq K] in
+theorem refAxes_same (mode : Mode) (c : K) :
+    ∀ (s offs : List Nat) (ax : Nat) (X : List Nat → K) (idx : List Nat),
+      refAxes mode c ax s s offs X idx = X idx
+  | n :: s, off :: offs, ax, X, idx => by
+    simp only [refAxes]
+    rw [refAxes_same mode c s offs (ax + 1)]
+    simp only [alongAxis, ref1d, lt_irrefl, ↓reduceIte, set_getD_self]
+  | [], _, _, _, _ => by simp [refAxes]
+  | _ :: _, [], _, _, _ => by simp [refAxes]
+
+omit [CommRing K] [DecidableEq K] in
+theorem admND_same (mode : Mode) : ∀ (s offs : List Nat), s.length = offs.length →
+    AdmissibleND mode s s offs
+  | [], [], _ => trivial
+  | n :: s, off :: offs, h =>
+    ⟨⟨fun hh => absurd rfl hh, fun hh => absurd hh (lt_irrefl n)⟩,
+      admND_same mode s offs (by simpa using h)⟩
+  | [], _ :: _, h => by simp at h
+  | _ :: _, [], h => by simp at h
+
 end
 end OdlModel.C16
